@@ -35,6 +35,17 @@ T0 = EPOCH
 # --------------------------------------------------------------------------------------
 def build_grid(g):
     k = g["kind"]
+    if k in ("uniform", "rect") and "hist" not in g:
+        import json, zlib
+        if zlib.crc32(json.dumps(g, sort_keys=True, default=str).encode()) % 5 == 0:
+            # every fifth structured grid has a history: built for the other data location, used (points, shape, size
+            # read), copied, and the copy switched to the location the case wants
+            other = "POINTS" if str(g["loc"]).upper().endswith("CELLS") else "CELLS"
+            first = build_grid(dict(g, loc=other, hist=False))
+            _ = (first.data_points, first.data_shape, first.data_size, first.data_axes)
+            second = first.copy()
+            second.data_location = g["loc"]
+            return second
     if k == "uniform":
         return fm.UniformGrid(tuple(g["dims"]), spacing=tuple(g["spacing"]), origin=tuple(g["origin"]),
                               data_location=g["loc"], order=g["order"], axes_reversed=g["rev"],
